@@ -1,2 +1,76 @@
-use crate::NativeBody;
-pub fn register(_v: &mut Vec<(&'static str, NativeBody)>) {}
+//! C05 (leaf kernel) — `remap_projection_for_join_flatmap` reads the same cell in the fused
+//! JoinFlatMap's (left ++ all right) row as the index did in the Join's (left ++ right∖keys) row.
+use crate::{cover, harness, NativeBody, NativeSrc, Src};
+use inputlayer::Optimizer;
+
+/// left width lw (0..=3), right width 3, right key list of length 0..=2 (duplicates allowed),
+/// arbitrary output index within the join's width; cell identity instead of values: cells are
+/// numbered 0..lw+3 so equality of cells is equality of positions.
+fn remap_law<S: Src>(s: &mut S, nkeys: usize) -> Result<(), String> {
+    let lw = s.u8() as usize;
+    s.assume(lw <= 3);
+    let k0 = s.u8() as usize;
+    let k1 = s.u8() as usize;
+    s.assume(k0 < 3 && k1 < 3);
+    let keys_arr = [k0, k1];
+    let keys = &keys_arr[..nkeys];
+    // join output: left cells 0..lw, then right cells (lw + j) for j not in keys
+    let mut out = [0usize; 6];
+    let mut n = 0;
+    let mut i = 0;
+    while i < lw {
+        out[n] = i;
+        n += 1;
+        i += 1;
+    }
+    let mut j = 0;
+    while j < 3 {
+        let mut is_key = false;
+        let mut t = 0;
+        while t < nkeys {
+            if keys[t] == j {
+                is_key = true;
+            }
+            t += 1;
+        }
+        if !is_key {
+            out[n] = lw + j;
+            n += 1;
+        }
+        j += 1;
+    }
+    let idx = s.u8() as usize;
+    s.assume(idx < n);
+    let proj = [idx];
+    let r = Optimizer::verif_remap_projection_for_join_flatmap(&proj, lw, keys);
+    cover!(idx >= lw, "right-side index");
+    let res = if r.len() != 1 {
+        Err(String::from("remap changes the projection length"))
+    } else if r[0] != out[idx] {
+        // concat row of JoinFlatMap is cells 0..lw+3 in order, so position == cell id
+        Err(String::from("remapped index reads a different cell"))
+    } else {
+        Ok(())
+    };
+    std::mem::forget(r);
+    res
+}
+
+pub fn b_remap0<S: Src>(s: &mut S) -> Result<(), String> {
+    remap_law(s, 0)
+}
+harness!(c05_remap0, b_remap0, 8);
+pub fn b_remap1<S: Src>(s: &mut S) -> Result<(), String> {
+    remap_law(s, 1)
+}
+harness!(c05_remap1, b_remap1, 8);
+pub fn b_remap2<S: Src>(s: &mut S) -> Result<(), String> {
+    remap_law(s, 2)
+}
+harness!(c05_remap2, b_remap2, 8);
+
+pub fn register(v: &mut Vec<(&'static str, NativeBody)>) {
+    v.push(("c05_remap0", b_remap0::<NativeSrc>));
+    v.push(("c05_remap1", b_remap1::<NativeSrc>));
+    v.push(("c05_remap2", b_remap2::<NativeSrc>));
+}
